@@ -63,11 +63,8 @@ PROPS = {
     level_note="from_iN/normalize/to_string/parse contracts are A3/A2.", not_covered=["f32/f64 conversions"]),
  'C18': dict(units=['ds', 'dd'], assumptions=[A1, A5, A6],
     level_text="Unbounded proof: each of the nine get_*_descriptor returns the entry stored under exactly (kind, name) if it has that kind, else the documented default; each set_* writes exactly that key; a registration is local to its key; describe() (iterator adapters normalised to index loops, rule 26; descriptor applications opaque, rule 7) equals the spec function sdesc: every node is rendered by the descriptor looked up for its kind and name, applied to the renderings of its children in order.",
-    level_note="Store behind trusted new/set/get over a map view (A5), frozen during one describe() (A4); the default_*_descriptor bodies (join, format) are outside Verus's reach: bounded stand-in only.",
-    always_bounded=dict(function='default_*_descriptor bodies (through describe() with the default descriptors)', categories=['parse'],
-        why="the nine default_*_descriptor functions use Vec<String>::join and String concatenation on moved values; their text is the documented default rendering, so they are compared with the reference rendering on a corpus",
-        bound="fixed corpus (about 1700 inputs of vx/corpus.py, every node kind, default descriptors only - registration is not reachable through the public API): describe() returns, and equals the documented default rendering"),
-    not_covered=["default_*_descriptor bodies beyond the bounded corpus"]),
+    level_note="Store behind trusted new/set/get over a map view (A5), frozen during one describe() (A4); the nine default_*_descriptor bodies are proved to compute the documented default rendering (slice join through a trusted wrapper, rule 28).",
+    not_covered=["that the opaque default values of rule 24 are the default_* functions (by construction of the normalisation)"]),
 }
 for _p in PROPS.values():
     _p.setdefault('level', 'proof')
